@@ -1,17 +1,29 @@
 (* correspondence entry points for C14: observation of the bookkeeping after every edit *)
-From QV.Model Require Import Base Matrix Arith.
+From QV.Model Require Import Base Matrix Arith Expr Extrema Sat PCBO Convert PCSO.
 From QV.Proofs Require Import InvProofs.
 Open Scope Q_scope.
 
-Record obs := { o_tm : terms; o_deg : option nat; o_vars : list label; o_n : nat; o_mp : list (label * nat) }.
+Record obs := { o_tm : terms; o_deg : option nat; o_vars : list label; o_n : nat; o_mp : list (label * nat); o_anc : nat }.
 
 Definition observe (m : model) : obs :=
-  {| o_tm := tm m; o_deg := deg_c m; o_vars := vars_c m; o_n := num_vars m; o_mp := mp m |}.
+  {| o_tm := tm m; o_deg := deg_c m; o_vars := vars_c m; o_n := num_vars m; o_mp := mp m; o_anc := anc m |}.
 
-Fixpoint run_obs (m : model) (es : list edit) : list obs * option err :=
+(* the edits of the C14 theorem, plus (correspondence only) the constraint methods of PCBO / PCSO as edits *)
+Inductive hedit := HE (e : edit) | HC (r : rel) (P : terms) (lam : Q) (lt : bool) (b : bounds).
+Definition apply_hedit (m : model) (h : hedit) : result model :=
+  match h with
+  | HE e => apply_edit m e
+  | HC r P lam lt b =>
+      match (match kd m with KPcso => pcso_add r m P lam lt b | _ => add_constraint r m P lam lt b end) with
+      | Ok (m', _, _) => Ok m'
+      | Err x => Err x
+      end
+  end.
+
+Fixpoint run_obs (m : model) (es : list hedit) : list obs * option err :=
   match es with
   | [] => ([], None)
-  | e :: es' => match apply_edit m e with
+  | e :: es' => match apply_hedit m e with
                 | Ok m' => let '(l, r) := run_obs m' es' in (observe m' :: l, r)
                 | Err x => ([], Some x)
                 end
@@ -23,7 +35,7 @@ Definition mk_operand (k : option kind) (t : terms) : operand :=
   | Some k' => match m_create k' t with Ok b => OModel b | Err _ => ORaw [] end
   end.
 
-Definition cin := (kind * terms * list edit)%type.
+Definition cin := (kind * terms * list hedit)%type.
 Definition cout := (list obs * option err)%type.
 
 Definition run_case (c : cin) : cout :=
@@ -47,7 +59,7 @@ Fixpoint mp_eqb (a b : list (label * nat)) : bool :=
   end.
 Definition obs_eqb (a b : obs) : bool :=
   map_eqb (o_tm a) (o_tm b) && optnat_eqb (o_deg a) (o_deg b) && labels_eqb (o_vars a) (o_vars b)
-  && Nat.eqb (o_n a) (o_n b) && mp_eqb (o_mp a) (o_mp b).
+  && Nat.eqb (o_n a) (o_n b) && mp_eqb (o_mp a) (o_mp b) && Nat.eqb (o_anc a) (o_anc b).
 Fixpoint obsl_eqb (a b : list obs) : bool :=
   match a, b with
   | [], [] => true
